@@ -582,7 +582,12 @@ func finish(spec CheckSpec, c *Ctx, wall time.Duration) int {
 		}
 	}
 	if tot.States == 0 {
+		// checks that enumerate executions without a separate notion of state: every execution starts
+		// from a freshly built object, so it is its own (history-)state
 		tot.States = tot.Evals
+		if tot.States == 0 {
+			tot.States = tot.Transitions
+		}
 	}
 	if len(samples) == 0 {
 		samples = append(samples, "no sample recorded")
